@@ -13,6 +13,21 @@ def sh(cmd, **kw):
     return subprocess.run(cmd, shell=True, stdout=subprocess.PIPE, stderr=subprocess.STDOUT, text=True, **kw)
 
 
+def apply_patch(wt, patch):
+    """git apply; if the tree has moved on since the patch was made (fix commits in the same files), fall back to a 3-way
+    apply and return the refreshed diff against the current HEAD.  Returns (ok, output, refreshed_diff_or_None)"""
+    r = subprocess.run('git -C %s apply %s' % (wt, patch), shell=True, stdout=subprocess.PIPE, stderr=subprocess.STDOUT, text=True)
+    if r.returncode == 0:
+        return True, r.stdout, None
+    r3 = subprocess.run('git -C %s apply -3 %s' % (wt, patch), shell=True, stdout=subprocess.PIPE, stderr=subprocess.STDOUT, text=True)
+    if r3.returncode != 0 or 'with conflicts' in r3.stdout:
+        subprocess.run('git -C %s checkout -q -- . ; git -C %s reset -q --hard' % (wt, wt), shell=True)
+        return False, r.stdout + r3.stdout, None
+    d = subprocess.run('git -C %s diff HEAD -- engine tests' % wt, shell=True, stdout=subprocess.PIPE, text=True).stdout
+    subprocess.run('git -C %s reset -q' % wt, shell=True)
+    return True, r3.stdout, d
+
+
 def run_one(sid):
     d = os.path.join(ROOT, 'seeded', sid)
     meta = json.load(open(os.path.join(d, 'meta.json')))
@@ -22,9 +37,15 @@ def run_one(sid):
     r = sh('git -C /repo worktree add --detach %s HEAD' % WT)
     out = []
     try:
-        r = sh('git -C %s apply %s' % (WT, os.path.join(d, 'patch.diff')))
-        if r.returncode:
-            return sid, [dict(check='apply', status='PATCH-DOES-NOT-APPLY', signature=r.stdout[-200:], wall_s=0)]
+        ok, aout, refreshed = apply_patch(WT, os.path.join(d, 'patch.diff'))
+        if not ok:
+            return sid, [dict(check='apply', status='PATCH-DOES-NOT-APPLY', signature=aout[-200:], wall_s=0)]
+        if refreshed:
+            # keep the change applicable to the current tree (the original stays next to it)
+            if not os.path.exists(os.path.join(d, 'patch.orig.diff')):
+                shutil.copy(os.path.join(d, 'patch.diff'), os.path.join(d, 'patch.orig.diff'))
+            open(os.path.join(d, 'patch.diff'), 'w').write(refreshed)
+            meta['patch_refreshed_on_repo_commit'] = sh('git -C /repo rev-parse --short HEAD').stdout.strip()
         env = dict(os.environ)
         env['VERIF_REPO'] = WT
         for p in props:
